@@ -122,6 +122,13 @@ class ClientSetupTask(ItemTask[AppSession]):
             if session.args.referer:
                 request.fields['Referer'] = session.args.referer
 
+            # As in Wget, a user's header replaces the one generated here.
+            for header_string in session.args.header:
+                name = header_string.split(':', 1)[0].strip()
+
+                if name in request.fields:
+                    del request.fields[name]
+
             for header_string in session.args.header:
                 request.fields.parse(header_string)
 
